@@ -145,7 +145,7 @@ class World:
         self.views = {}         # (id(parent), phase) -> object id
         self.kind = []          # 'plain' | 'proxy' | 'view' | 'flowproxy' | 'copy'
         self.last_mut = ['-']
-        self.touched_by_proxy = False
+        self.proxied = set()    # object ids that have a proxy
 
     def oid(self, obj):
         for i, o in enumerate(self.objs):
@@ -204,7 +204,8 @@ def run_ops(ops):
             elif op == 'flowproxy':
                 w.add(w.objs[int(t[1])].flow_proxy(), 'flowproxy'); emit('new', f'ok {len(w.objs) - 1}')
             elif op == 'proxy':
-                w.add(w.objs[int(t[1])].proxy(), 'proxy'); emit(f'proxy {t[1]}', f'ok {len(w.objs) - 1}')
+                w.add(w.objs[int(t[1])].proxy(), 'proxy'); w.proxied.add(int(t[1]))
+                emit(f'proxy {t[1]}', f'ok {len(w.objs) - 1}')
             elif op == 'view':
                 o = int(t[1]); s = w.objs[o]
                 if isinstance(s, tmo.MultiStream) and t[2] in s.phases:
@@ -232,8 +233,8 @@ def run_ops(ops):
                                       # phases): "the same flows and phases" is undefined; C13's concern, not C14's
                 ref = getattr(fresh_like(s), attr)
                 if not same(val, ref):
-                    prox = any(k == 'proxy' for k in w.kind)
-                    sig = 'stale:' + ('proxy-shares-memo' if prox else f'{w.kind[o]}:after-{w.last_mut[0]}')
+                    kind = 'proxy-pair' if (w.kind[o] == 'proxy' or o in w.proxied) else w.kind[o]
+                    sig = f'stale:{kind}:after-{w.last_mut[0]}'
                     failures.append({'signature': sig, 'op_index': len(model_in) - 1,
                                      'what': f'`{attr}` read {val!r} but a fresh stream in the same state gives {ref!r} '
                                              f'(object kind {w.kind[o]}, last mutation {w.last_mut[0]})'})
@@ -338,7 +339,10 @@ def gen_case(rng, length):
         o = rng.randrange(len(kinds))
         r = rng.random()
         if last_read and ops and not ops[-1].startswith('read') and rng.random() < 0.6:
-            # the staleness pattern: read, mutate, read the same thing again
+            # the staleness pattern: read, mutate, (read something else,) read the same thing again
+            if rng.random() < 0.4:
+                attrs = ATTRS_MULTI if kinds[last_read[0]] == 'multi' else ATTRS_SINGLE
+                ops.append(f'read {last_read[0]} {rng.choice(attrs)}')
             ops.append(f'read {last_read[0]} {last_read[1]}')
             continue
         if last_read and rng.random() < 0.5:
@@ -401,3 +405,26 @@ def corpus():
         Case(['new single 0 298.15 101325.0 l 1,2,0,0,0,0,0,0,0,0', 'new single 0 350.0 101325.0 g 0,2,1,0,0,0,0,0,0,0',
               'read 0 H', 'link 0 1 1 1 1', 'read 0 H', 'setT 1 280.0', 'read 0 H', 'unlink 0', 'read 0 H', 'read 0 H']),
     ]
+
+
+def search(case, rng, budget_s):
+    """The correspondence broke (a memo hit/miss differs from the model).  Look for a stale value on the
+    real code near it: every continuation of the history by one or two further reads on every object."""
+    import time
+    t0 = time.time()
+    nobj = sum(1 for l in case.ops if l.split(' ')[0] in ('new', 'copy', 'flowproxy', 'proxy', 'view'))
+    attrs = ATTRS_SINGLE
+    prefixes = [case.ops[:n] for n in range(len(case.ops), max(0, len(case.ops) - 4), -1)]
+    for pre in prefixes:
+        for o in range(max(nobj, 1)):
+            for a in [None] + attrs:
+                for b in attrs:
+                    if time.time() - t0 > budget_s: return None
+                    ops = list(pre) + ([f'read {o} {a}'] if a else []) + [f'read {o} {b}']
+                    try:
+                        res = run_impl(Case(ops, {}))
+                    except Exception:
+                        continue
+                    if res.failures:
+                        return Case(ops, {'found_by': 'search'})
+    return None
